@@ -51,6 +51,12 @@ def r1_one_code_object(ctx):
             ok,
             f"`{short(st, 60)}` binds the code key to `{who}.__code__`, but the function handed to the table is `{', '.join(sorted(x for x in ret_names if x))}`{' (rebound afterwards)' if rebinds else ''}: the method's call_next key never matches a continuation entry",
         )
+    from . import resolveexec
+
+    resolveexec.with_fallback(ctx, ("entries", "errors", "no-method"), _continuation_prefix_shape)
+
+
+def _continuation_prefix_shape(ctx):
     # continuation prefixes derive from __code__ of the handlers of the rank
     multi = A.multimap(ctx.repo)
     n = 0
@@ -258,6 +264,84 @@ def r5_next_keys_like_call_next(ctx):
 
 
 def r6_ranks_partition(ctx):
+    """The grouping of the sorted candidates into ranks, interpreted on every dominance relation over up to four
+    candidates: the ranks are a partition of the candidates (no method in two ranks, none lost), in sorted order, and
+    a rank's head is followed exactly by the candidates it does not dominate."""
+    import itertools
+
+    from ..metainterp import HostFn, HostInterp, Raised, Record
+    from ..model import AnalysisError
+    from .common import local_slice
+
+    repo = ctx.repo
+    multi = A.multimap(repo)
+    rankers = [m for m in lookup_path(ctx, multi) if any(isinstance(c, ast.Call) and ((isinstance(c.func, ast.Attribute) and c.func.attr == "sort") or call_name(c) == "sorted") for c in ast.walk(m.node))]
+    ctx.require(len(rankers) == 1, f"expected one candidate-ordering method on the lookup path, found {[r.key for r in rankers]}")
+    rk = rankers[0]
+    ctx.touch(rk)
+    # the sorted candidate list and the value the method returns
+    sorted_names = {dotted(c.func.value) for c in ast.walk(rk.node) if isinstance(c, ast.Call) and isinstance(c.func, ast.Attribute) and c.func.attr == "sort"}
+    sorted_names |= {t.id for st in ast.walk(rk.node) if isinstance(st, ast.Assign) and isinstance(st.value, ast.Call) and call_name(st.value) == "sorted" for t in st.targets if isinstance(t, ast.Name)}
+    sorted_names.discard(None)
+    rets = [st for st in rk.node.body if isinstance(st, ast.Return) and st.value is not None]
+    try:
+        if len(sorted_names) != 1 or len(rets) != 1:
+            raise AnalysisError("the sorted candidate list or the single top-level return was not found")
+        cand = next(iter(sorted_names))
+        expr = rets[0].value
+        sl = local_slice(rk.node, expr, bound=(cand,))
+        # statements of the slice that come after the sort (the grouping machinery): those before it build the list
+        sort_line = max(c.lineno for c in ast.walk(rk.node) if isinstance(c, ast.Call) and ((isinstance(c.func, ast.Attribute) and c.func.attr == "sort") or call_name(c) == "sorted"))
+        sl = [st for st in sl if st.lineno > sort_line]
+        funcs = {n: f.node for n, f in rk.module.funcs.items() if f.parent is None and f.cls is None}
+        methods = {n: m.node for n, m in multi.methods.items()}
+        bad = None
+        cases = 0
+        for n in (1, 2, 3, 4):
+            pairs = [(i, j) for i in range(n) for j in range(n) if i != j]
+            space = itertools.product((True, False), repeat=len(pairs)) if n <= 3 else [tuple((i < j) if k % 3 else (k % 2 == 0) for k, (i, j) in enumerate(pairs)) for _ in (0,)] + [tuple(False for _ in pairs), tuple(True for _ in pairs), tuple(i < j for i, j in pairs)]
+            for bits in space:
+                rel = dict(zip(pairs, bits))
+                cands = []
+                for i in range(n):
+                    c = Record(handler=f"h{i}", index=i)
+                    c.dominates = HostFn(lambda other, i=i, rel=rel: rel[(i, other.index)])
+                    cands.append(c)
+                me = Record()
+                hi = HostInterp(methods, me, {}, globals_env={}, classes={}, functions=funcs)
+                env = {cand: list(cands), recv_name(rk): me}
+                from ..metainterp import _Shared
+
+                env = _Shared(env)
+                for st in sl:
+                    hi.stmt(st, env)
+                got = hi.ev(expr, env)
+                cases += 1
+                ranks = [[c.index for c in r] for r in got]
+                flat = [i for r in ranks for i in r]
+                problem = None
+                if sorted(flat) != list(range(n)):
+                    dup = sorted({i for i in flat if flat.count(i) > 1})
+                    lost = sorted(set(range(n)) - set(flat))
+                    problem = (f"method(s) {dup} appear in two ranks" if dup else "") + (f" method(s) {lost} appear in no rank" if lost else "")
+                elif ranks and ranks[0] != [0] + [j for j in range(1, n) if not rel[(0, j)]]:
+                    problem = f"the first rank is {ranks[0]}, the head 0 does not dominate {[j for j in range(1, n) if not rel[(0, j)]]}"
+                if problem and bad is None:
+                    bad = (n, {k: v for k, v in rel.items() if v}, ranks, problem)
+        ctx.ob(
+            f"{rk.key}:ranks-partition",
+            rk.loc(rets[0]),
+            f"the ranks are a partition of the sorted candidates, each rank being its head plus the candidates the head does not dominate ({cases} dominance relations interpreted)",
+            bad is None,
+            (f"with {bad[0]} sorted candidates and dominance {bad[1]} the ranks are {bad[2]}: {bad[3]}: call_next visits a method twice or skips one" if bad else ""),
+        )
+        return
+    except (AnalysisError, Raised) as e:
+        ctx.note(f"{rk.key}: grouping not interpretable ({e}); shape rule used instead")
+    _r6_ranks_partition_shape(ctx)
+
+
+def _r6_ranks_partition_shape(ctx):
     multi = A.multimap(ctx.repo)
     pulls = [f for m in lookup_path(ctx, multi) for f in m.children.values() if any(isinstance(n, (ast.Yield, ast.YieldFrom)) for n in ast.walk(f.node))]
     ctx.require(len(pulls) == 1, f"expected one rank generator nested in the candidate ordering, found {[p.key for p in pulls]}")
